@@ -697,16 +697,22 @@ def mon_equiv(ctx, prog, th, v, pts, rng, do_eager, do_mvmap, count=True, do_uns
         # no seed transformation: keys come from genjax's global counter
         raw = prog._build(False)["jvp"]
         r = _guard(ctx, lambda: raw(*a))
-        if hasattr(r, "brief"):
+        if hasattr(r, "brief") and r.type == "LoweringSamplePrimitiveToMLIRException":
+            # property C14: an unseeded site that would be compiled (here: inside the continuation of a lax.cond) is refused
+            if count:
+                ctx.count("equiv_unseeded_refused_by_lowering_guard")
+        elif hasattr(r, "brief"):
             raise Fail("raises:" + r.type, {"entry": "jvp", "variant": "unseeded-eager", **r.brief()})
-        pu, tu = r
-        bad = not (np.isfinite(float(pu)) and np.isfinite(float(tu)))
-        if deterministic:
-            bad = bad or not (_ok(pu, p, abs(float(p))) and _ok(tu, t, mag))
-        if bad:
-            raise Fail("unseeded-vs-seeded", {**_th_detail(th, v), "unseeded": [float(pu), float(tu)], "seeded_jit": [float(p), float(t)]})
-        if count:
-            ctx.count("equiv_unseeded_runs")
+        else:
+            pu, tu = r
+            bad = not (np.isfinite(float(pu)) and np.isfinite(float(tu)))
+            if deterministic:
+                bad = bad or not (_ok(pu, p, abs(float(p))) and _ok(tu, t, mag))
+            if bad:
+                raise Fail("unseeded-vs-seeded", {**_th_detail(th, v), "unseeded": [float(pu), float(tu)],
+                                                  "seeded_jit": [float(p), float(t)]})
+            if count:
+                ctx.count("equiv_unseeded_runs")
     if do_mvmap:
         geo = _geo_param(ctx) if _has_geo(prog.spec) else "probs"
         eps = round(float(rng.uniform(0.3, 1.2) * rng.choice([-1, 1])), 3)
